@@ -53,6 +53,12 @@ def h_encoder(e, cfg):
         if tuple(out.shape) != (steps, n):
             return
         sp = e.read(out)
+    anys = False
+    for v in sp.reshape(-1):
+        anys = T.bor(anys, T.tob(v))
+    first_possible = 0 if cfg["encoder"] != "homogeneous" else max(1, math.ceil((cfg["refrac"] if cfg["refrac"] is not None else dt) / dt - 1e-9))
+    if steps > first_possible:       # (the refractory encoder cannot fire before one refractory period has elapsed)
+        e.witness("encoder:some-spike-is-emitted", anys)
     for i in range(n):
         zero = T.eq(xa[i], 0)
         for t in range(steps):
